@@ -3,7 +3,8 @@ from . import msgs_common as MC
 
 ID = 'C04'
 PKG = 'pkg/dialects/common'
-HARNESS_FILES = []
+HARNESS_FILES = ['pkg/frame/zz_verif_common.go', 'pkg/frame/zz_verif_dialect.go', 'pkg/frame/zz_verif_msgs.go', 'pkg/frame/zz_verif_c02.go',
+                 'pkg/x25/zz_verif_c02.go', 'pkg/frame/zz_verif_c05.go', 'pkg/frame/zz_verif_c06.go', 'pkg/frame/zz_verif_export.go', 'pkg/frame/zz_verif_c08.go', 'pkg/frame/zz_verif_c04t.go']
 ALLOW = MC.ALLOW
 INITS = MC.INITS
 OPTIONS = {}
@@ -20,19 +21,29 @@ _state = {}
 def prepare(tier, work):
     p = MC.prepare(tier, work, 'MD')
     _state['msgs'] = p['msgs']
+    p['groups'].append({'name': 'pkg/frame', 'pkgs': ['pkg/frame'], 'roots': [r'frame\.verifHarness_C04_twice']})
     return p
 
 
 def tasks(tier):
-    return MC.d_tasks(_state['msgs'], tier) + MC.m_tasks(_state['msgs'], tier)
+    from gosym.check import Task
+    ts = []
+    # one codec used twice in a row (harness dialect shapes; shape 1 has the string)
+    for v2 in (0, 1):
+        for shape in (0, 2, 3):
+            ts.append(Task('verifHarness_C04_twice', [v2, shape, 2, 2], pkg='pkg/frame', group='pkg/frame'))
+        for l1, l2 in (((4, 1), (5, 0)) if tier == 'quick' else ((4, 1), (5, 0), (1, 4), (5, 5), (3, 2))):
+            ts.append(Task('verifHarness_C04_twice', [v2, 1, l1, l2], pkg='pkg/frame', group='pkg/frame'))
+    return ts + MC.d_tasks(_state['msgs'], tier) + MC.m_tasks(_state['msgs'], tier)
 
 
 def required_reach(tier):
-    return ['M', 'D']
+    return ['M', 'D', 'C04/2x']
 
 
 def bounds(tier):
-    return {'types': 'all %d message struct definitions of the shipped dialect packages' % len(_state.get('msgs', [])),
+    return {'codec_used_twice': 'one message.ReadWriter, two consecutive Write calls and two consecutive Read calls with independent arbitrary values (4 harness shapes; the string shape with a longer string followed by a shorter one and the reverse): the second result is that of a fresh codec, the first result is left alone',
+            'types': 'all %d message struct definitions of the shipped dialect packages' % len(_state.get('msgs', [])),
             'round_trip': 'as C03: every field value symbolic; strings of length 2 (+ declared+1 for short single-string messages; one over-long string at a time for multi-string messages); both versions',
             'decode': ('payload lengths {0,1,base-1,base,ext,ext+1,255} (v2) and {0,base-1,base,base+1} (v1)' if tier == 'quick'
                        else 'every payload length 0..ext+2 and 254,255,256,300 (v2); {0,1,base-1,base,base+1,ext,255} (v1)') +
